@@ -158,7 +158,13 @@ def find (reg : Registry) (f : Forest) (start : Loc) (ctxMod : Nat) (name : Stri
     let first := parts.headD ""
     let pfx := (splitPrefix first).1
     let tree : Option Nat :=
-      if pfx == "" then some start.1 else
+      if pfx == "" then
+        -- a name without prefix belongs to the current module: a submodule's tree gives way to
+        -- its owner's (when the owner is loaded)
+        match reg.byId start.1 with
+        | some sm => if sm.isSub then ((reg.owner sm).map (·.seq)).getD start.1 else start.1
+        | none => some start.1
+      else
       match reg.byId ctxMod with
       | none => none
       | some cm =>
@@ -166,7 +172,12 @@ def find (reg : Registry) (f : Forest) (start : Loc) (ctxMod : Nat) (name : Stri
         | none => none
         | some m => (reg.owner m).map (·.seq)
     match tree with
-    | none => (none, f)
+    | none =>
+      -- Go records "cannot find module giving prefix …" (or "… which module … belongs to") on the
+      -- root entry of the tree it started in
+      (none, match f.tree? start.1 with
+        | some root => f.setTree start.1 (root.addErr (Err.bare "other"))
+        | none => f)
     | some t =>
       match f.tree? t with
       | none => (none, f)
